@@ -6,6 +6,7 @@ import (
 	"flag"
 	"fmt"
 	"os"
+	"runtime"
 	"sync"
 	"sync/atomic"
 	"time"
@@ -32,6 +33,7 @@ type OverloadScenario struct {
 		Bursts   []int `json:"bursts"`
 		Waits    []int `json:"waits_ms"`
 		Sessions int   `json:"sessions"`
+		Hammer   int   `json:"hammer"` // > 0: that many goroutines take from the bucket at the same instant, through the plugin's hook
 	} `json:"rate"`
 }
 
@@ -272,8 +274,64 @@ func runOverload(rec *Rec, sc *OverloadScenario, n int) {
 	}
 }
 
+// fakeRead is the smallest ReadCtx the plugin's header hook needs: it only asks for the service method.
+type fakeRead struct{ erpc.ReadCtx }
+
+func (fakeRead) ServiceMethod() string { return CallRoute }
+
+// runHammer releases r.Hammer goroutines from a spin barrier into the plugin's PostReadCallHeader hook (the real
+// token bucket, a fresh one per round): the interleavings of spec/QpsAtomic.tla, sampled by the scheduler.
+func runHammer(rec *Rec, sc *OverloadScenario, n int) {
+	r := sc.Rate
+	interval := time.Duration(r.Interval) * time.Millisecond
+	once := r.Cap / int(time.Second/interval)
+	if once == 0 {
+		once = 1
+	}
+	rec.SetTrace(sc.ID, map[string]interface{}{"mode": "rate", "cap": r.Cap, "once": once})
+	for _, rounds := range r.Bursts {
+		for k := 0; k < rounds; k++ {
+			ov := overloader.New(overloader.LimitConfig{MaxTotalQPS: int32(r.Cap), QPSInterval: interval})
+			var ready, admitted, rejErr int32
+			var gate int32
+			var wg sync.WaitGroup
+			t0 := time.Now()
+			for g := 0; g < r.Hammer; g++ {
+				wg.Add(1)
+				go func() {
+					defer wg.Done()
+					atomic.AddInt32(&ready, 1)
+					for atomic.LoadInt32(&gate) == 0 {
+					}
+					st := ov.PostReadCallHeader(fakeRead{})
+					if st.OK() {
+						atomic.AddInt32(&admitted, 1)
+					} else if st.Code() == erpc.CodeInternalServerError {
+						atomic.AddInt32(&rejErr, 1)
+					}
+				}()
+			}
+			for atomic.LoadInt32(&ready) < int32(r.Hammer) {
+				runtime.Gosched()
+			}
+			atomic.StoreInt32(&gate, 1)
+			wg.Wait()
+			ticks := int(time.Since(t0)/interval) + 1
+			a := int(atomic.LoadInt32(&admitted))
+			// one event per round; the bucket is fresh (event Fresh)
+			rec.Emit("Fresh", "round", k)
+			rec.Emit("Calls", "sent", r.Hammer, "admitted", a, "rejected", r.Hammer-a, "rejectederr", int(atomic.LoadInt32(&rejErr)),
+				"handlers", a, "ticks", ticks-1, "hammer", true)
+		}
+	}
+}
+
 func runRate(rec *Rec, sc *OverloadScenario, n int) {
 	r := sc.Rate
+	if r.Hammer > 0 {
+		runHammer(rec, sc, n)
+		return
+	}
 	interval := time.Duration(r.Interval) * time.Millisecond
 	once := r.Cap / int(time.Second/interval)
 	if once == 0 {
